@@ -7,9 +7,12 @@
 EXTENDS Canon, Json, IOUtils
 Table == ndJsonDeserialize(IOEnv.TRACE)
 VARIABLE bad
+(* mode "image-name": s is the NAME of an entry of a crafted image; the tool (sqfs2tar) may use it as an archive member name only if the file-name *)
+(* sanity test accepts it (rc = 0: a member of exactly that name was written; rc # 0: no such member)                                             *)
 RecordOK(r) ==
-  /\ (r.rc = 0  => CanonSpec(r.s) = r.o)
-  /\ (r.rc # 0  => CanonSpec(r.s) = Fail)
+  IF r.mode = "image-name" THEN (r.rc = 0) = (SaneSpec(r.s) /\ r.o = r.s)
+  ELSE /\ (r.rc = 0  => CanonSpec(r.s) = r.o)
+       /\ (r.rc # 0  => CanonSpec(r.s) = Fail)
 TInit == str = <<>> /\ bad = {i \in 1..Len(Table) : ~RecordOK(Table[i])}
 TNext == UNCHANGED <<str, bad>>
 AllRecordsAgree == bad = {}
